@@ -93,7 +93,11 @@ class Interp(Engine):
         if isinstance(v, (SArr, NArr, PList, PDict, DictListRef, Iter)):
             m = self.models.method_of(self, v, name)
             return m
+        if isinstance(v, slice) and name == "indices":
+            return NativeMethod(self.models.slice_indices, v, name)
         if isinstance(v, Opaque):
+            if "." + name in v.proto:
+                return v.proto["." + name](self, v)
             if name in v.proto:
                 return NativeMethod(lambda eng, recv, a, k, _m=v.proto[name]: _m(eng, recv, a, k), v, name)
             raise Unsupported(f"opaque object has no modelled attribute {name}")
